@@ -176,6 +176,16 @@ func (e *daemonEngine) onChainPut(n *dNode, b *common.Beacon, err error) {
 	if cc.chain == nil || b.Round == 0 {
 		return
 	}
+	// C01: whatever reaches any node's store, by whatever path, is a beacon of the chain
+	if msg := cc.chain.CheckBeacon(b.Round, prevFor(cc, b.Round, b.PreviousSig), b.Signature); msg != "" {
+		path := "participant"
+		if follower {
+			path = "follow"
+		} else if repairing {
+			path = "repair"
+		}
+		e.rec.Violate("C01", "stored-beacon-not-on-chain", path, "node %s stored: %s", n.addr, msg)
+	}
 	if follower || repairing {
 		e.rec.Count("probe:sync_puts_observed", 1)
 		if msg := cc.chain.CheckBeacon(b.Round, prevFor(cc, b.Round, b.PreviousSig), b.Signature); msg != "" {
@@ -185,7 +195,8 @@ func (e *daemonEngine) onChainPut(n *dNode, b *common.Beacon, err error) {
 			}
 			e.rec.Violate("C10", "synced-beacon-not-on-chain", mode, "node %s (%s) stored: %s", n.addr, mode, msg)
 		}
-		if follower && last != 0 && b.Round != last+1 {
+		// (a follower starts from an empty store: its first beacon is round 1)
+		if follower && b.Round != last+1 {
 			e.rec.Violate("C10", "store-written-out-of-chain-order", "follow", "follower %s wrote round %d after round %d", n.addr, b.Round, last)
 		}
 	}
@@ -263,6 +274,12 @@ func (e *daemonEngine) checkFollower(n *dNode, plan *FollowPlan, healAt time.Tim
 			facts = "last-peer-gives-another-chain-info"
 		} else if !ended {
 			facts = "still-running-but-stuck"
+			for _, l := range plan.Liars {
+				if l == "stall" {
+					// the follow call is still open on a peer that stopped sending
+					facts = "still-running-on-a-peer-that-stalls"
+				}
+			}
 		}
 		e.rec.Violate("C10", "follow-did-not-converge", facts, "follower %s has stored up to round %d, target %d, %s after it started with %d honest reachable peers (ended=%v err=%v)", n.addr, last, target, elapsed, honest, ended, ferr)
 	}
